@@ -78,9 +78,13 @@ impl KmerFilter {
         let f_print = Self::fingerprint(key);
         let buf_val = self.buffer[Self::location(key, self.buf_size)].borrow_mut();
         if *buf_val & f_print == f_print {
+            #[cfg(feature = "verif-hooks")]
+            crate::verif_hooks::event("B", &format!("{key}\t1"));
             true
         } else {
             *buf_val |= f_print;
+            #[cfg(feature = "verif-hooks")]
+            crate::verif_hooks::event("B", &format!("{key}\t0"));
             false
         }
     }
@@ -139,6 +143,8 @@ impl KmerFilter {
                             *curr_cnt = count
                         })
                         .or_insert(count);
+                    #[cfg(feature = "verif-hooks")]
+                    crate::verif_hooks::event("N", &format!("{kmer_hash}\t{count}"));
                     self.min_count.cmp(&count)
                 } else {
                     Ordering::Less
